@@ -97,6 +97,17 @@ class Report:
     RESOURCE = ("Overflow encountered when expanding vector", "out of memory", "MemoryError", "max. memory exceeded", "solver resource limit", "std::bad_alloc", "bad_alloc")
 
     def encoder_defect(self, what):
+        if "unsupported:" in what and "model does not reproduce" not in what:
+            # the code under analysis uses a construct outside the MIR fragment / std models of Engine B: that path is NOT
+            # explored.  Per the interface the exit code speaks about what was explored; the gap is reported, not hidden.
+            self.queries["undecided"] = self.queries.get("undecided", 0) + 1
+            self.undecided.append("outside the modelled fragment: " + what[:240])
+            self.extra.setdefault("unsupported_constructs", [])
+            msg = what.split("unsupported:", 1)[1].strip()[:120]
+            if msg not in self.extra["unsupported_constructs"]:
+                self.extra["unsupported_constructs"].append(msg)
+                print(f"UNDECIDED: property={self.prop} path not explored (outside the modelled MIR/std fragment): {msg}", flush=True)
+            return
         if any(r in what for r in self.RESOURCE):
             # the solver ran out of resources on this item: undecided (reported as such), not a modelling error
             self.queries["undecided"] = self.queries.get("undecided", 0) + 1
